@@ -200,19 +200,20 @@ PROPS = {
     "C09": {"ready": True, "replay": mc_checks.replay,
             "suites": [mc("mc_rerun", dict(two_runs=1.0, staged=0.3, p_link=0.4, p_fault=0.3, p_crash=0.2, nodes=(2, 3), p_send=0.5)), snapshot_check(walk=0, routes=False, transparent=True)]},
     "C10": {"ready": True, "replay": mc_checks.replay, "partial": PARTIAL_D1,
-            "suites": [mc("mc_bfs_dfs", dict(depth=(2, 4)), cross=[("dfs", "full"), ("bfs", "full"), ("dfs", "disabled"), ("bfs", "disabled")],
-                          n_quick=200)]},
+            "suites": [mc("mc_bfs_dfs", dict(depth=(2, 4)), cross=[("dfs", "full"), ("bfs", "full"), ("dfs", "partial"), ("bfs", "partial"), ("dfs", "disabled"), ("bfs", "disabled")],
+                          n_quick=200, extra_gen=mc_checks.gen_payload_twins)]},
     "C11": {"ready": True, "replay": mc_checks.replay, "partial": PARTIAL_D1,
             "suites": [mc("mc_cache_modes", dict(record=0.2, identical_msgs=0.5, depth=(2, 4)),
                           cross=[("dfs", "full"), ("dfs", "partial"), ("dfs", "disabled"), ("bfs", "full"), ("bfs", "disabled")],
-                          n_quick=200, extra_gen=mc_checks.gen_crash_merge), mc_checks.rand_cache_probe]},
+                          n_quick=200, extra_gen=lambda rng, tier: mc_checks.gen_crash_merge(rng, tier) + mc_checks.gen_payload_twins(rng, tier)), mc_checks.rand_cache_probe]},
     "C12": {"ready": True, "replay": mc_checks.replay,
             "suites": [mc("mc_fates", dict(p_fault=0.7, p_link=0.5, p_send=0.6, p_timer=0.1, nodes=(2, 3), procs=(2, 3), depth=(2, 4)),
                           refenum=True, nontrivial=lambda st: st["faults"] and st["multi_states"], extra_gen=mc_checks.gen_mc_link_matrix)]},
     "C13": {"ready": True, "partial": PARTIAL_D1, "replay": mc_checks.replay,
             "suites": [lambda v, tier, seed: store_suite.run(v, tier, seed, only_timers=True),
                        mc("mc_timer_order", dict(p_timer=0.7, p_send=0.15, p_once=0.4, same_timer_name=0.1, p_mode=0.4, depth=(3, 5),
-                                                 p_fault=0.05, staged=0.3, locals=(2, 4)), refenum=True, nontrivial=lambda st: st["blocked"])]},
+                                                 p_fault=0.05, staged=0.3, locals=(2, 4)), refenum=True, nontrivial=lambda st: st["blocked"],
+                          extra_gen=mc_checks.gen_payload_twins)]},
     "C14": {"ready": True, "replay": mc_checks.replay,
             "suites": [mc("mc_crash", dict(p_crash=1.0, nodes=(2, 3), procs=(2, 4), p_link=0.4, staged=0.5), refenum=True, extra_gen=mc_checks.gen_crash_then_heal,
                           nontrivial=lambda st: st["crash"] and st["multi_states"])]},
